@@ -164,6 +164,22 @@ def main():
     t0 = time.time()
     nn = a.n if a.mode == 'check' else 10 ** 6
     tried = 0
+    # distilled regression inputs first: the corpus (incl. quasi-helical with spsi = -1) and two inputs on which Newton stalls
+    for c_, q_ in corpus_objects(histories=False):
+        c_ = dict(c_); c_['nphi'] = 41
+        q_, m_ = build(c_)
+        v, n = predict(c_, rng, q_, m_)
+        res['predictions_checked'] += n; res['violations'] += v; res['configs'] += 1
+        dist['corpus'] = dist.get('corpus', 0) + 1
+    qh = dict(rc=[1.0, 0.17, 0.01804, 0.001409], zs=[0.0, 0.1581, 0.01820, 0.001548], nfp=4, etabar=1.569, nphi=31)
+    for hard in (dict(qh, sigma0=1.0e6), dict(qh, etabar=300.0), dict(qh, sigma0=-3.0e4, spsi=-1)):
+        try:
+            qh_, mh_ = build(hard)
+            vh, nh_ = predict(hard, rng, qh_, mh_)
+            res['predictions_checked'] += nh_; res['violations'] += vh
+            dist['hard'] = dist.get('hard', 0) + 1
+        except Exception:
+            pass
     while tried < nn and (a.mode == 'check' or (time.time() - t0 < a.budget and not res['violations'])):
         tried += 1
         try:
